@@ -669,6 +669,18 @@ func genKernels(h *H, prefixes ...string) {
 							objs[i] = make([]uint64, 10)
 							objs[i][0] = uint64(h.rng.Intn(3))
 						}
+						if h.rng.Intn(3) == 0 {
+							// the value the predicate tests for (0 or 1 in limb 0) with exactly one OTHER limb set:
+							// every limb position must take part in the test
+							objs[i] = make([]uint64, 10)
+							objs[i][0] = uint64(h.rng.Intn(2))
+							j := 1 + h.rng.Intn(9)
+							lim := uint64(1<<26 - 1)
+							if j == 9 {
+								lim = 1<<22 - 1
+							}
+							objs[i][j] = []uint64{1, lim, 1 << uint(h.rng.Intn(22)), uint64(h.rng.Int63())&lim | 1}[h.rng.Intn(4)]
+						}
 						if name == "Field_IsGtOrEqPrimeMinusOrder" && h.rng.Intn(2) == 0 {
 							pmn := []uint64{0x03c9baee, 0x03685c8b, 0x01fc4402, 0x006542dd, 0x01455123, 0, 0, 0, 0, 0}
 							objs[i] = append([]uint64{}, pmn...)
